@@ -151,7 +151,13 @@ impl Run {
     }
 
     /// Write evidence, print verdict lines, return exit code.
-    pub fn finish(self, mut coverage: Map<String, Value>) -> i32 {
+    pub fn finish(self, coverage: Map<String, Value>) -> i32 {
+        let code = self.finish_inner(coverage);
+        crate::fsutil::cleanup_all();
+        code
+    }
+
+    fn finish_inner(self, mut coverage: Map<String, Value>) -> i32 {
         let fragment_mode = std::env::var("VKIT_FRAGMENT").is_ok();
         let known = if fragment_mode { vec![] } else { load_known_findings() };
         let mut violations = 0;
